@@ -295,7 +295,23 @@ func g8aExec(s *Store, stmts []string) error {
 
 // g8aDumpLive dumps the node's SQLite file (+WAL) through the raw driver. The
 // node must be quiescent (no request in flight).
-func g8aDumpLive(s *Store) (string, error) { return vsql.DumpFile(s.dbPath) }
+func g8aDumpLive(s *Store) (string, error) {
+	// Hold the store's snapshot gate while the files are copied: a snapshot
+	// triggered in the background (threshold mode) checkpoints the WAL into the
+	// database file, and a copy taken across that is torn.
+	deadline := time.Now().Add(20 * time.Second)
+	for {
+		if err := s.snapshotCAS.Begin("verif-dump"); err == nil {
+			defer s.snapshotCAS.End()
+			break
+		}
+		if time.Now().After(deadline) {
+			return "", fmt.Errorf("snapshot gate busy for 20s")
+		}
+		time.Sleep(5 * time.Millisecond)
+	}
+	return vsql.DumpFile(s.dbPath)
+}
 
 func g8aNodesString(s *Store) (string, error) {
 	ns, err := s.Nodes()
